@@ -13,6 +13,12 @@ CHECKS = {
         text='Every reachable state of a Path of <= LMAX segments over a 3-4 segment pool under ALL histories (of any length) of the mutation and cache-filling query operations is visited (fixpoint of the BFS, both with and without scipy) and in each state every public query is compared with a freshly constructed Path; segment-level histories are explored to a stated depth. This is the right level because the property quantifies over histories and the state space (segment values x cache validity) is finite under the bound.',
         note='Trusted: copy.deepcopy reproduces object state (self-checked per state); the state key merges stale cache values of one field (argument in mc/props/c16.py:path_key). Bound: pool, LMAX, start/end assignment pool, segment-history depth.',
         design='4/C16'),
+    'C02': dict(
+        level='model_checking',
+        technique='exhaustive enumeration of all command programs up to length K x lexical styles, executed on the real parser and compared step-for-step with an independent reference interpreter of the SVG path grammar',
+        text='Every program M0 c1..cK over the 20 command letters (K<=4 quick, K<=5 thorough in spaced style; K<=3/4 in all 8 lexical styles) is parsed by the real parser and by the reference interpreter; all 100 command-class transitions of the parser state machine are exercised. The property quantifies over programs, and the parser is a small state machine whose defects are interactions of consecutive commands, so bounded-exhaustive program enumeration is the fitting level.',
+        note='Trusted: mc/refsvg.py as the reading of the SVG specification (its recogniser is cross-checked against its renderer on every case). Bound: K, fixed argument pool (7 rotations), 8 styles; trailing-dot numbers and arcs ending at their start excluded.',
+        design='4/C02'),
 }
 
 NOT_YET = {}
